@@ -4,6 +4,8 @@
 package main
 
 import (
+	"crypto/sha256"
+	"encoding/hex"
 	"flag"
 	"fmt"
 	"os"
@@ -12,6 +14,7 @@ import (
 	"verif/harness/c09lib"
 	"verif/harness/hx"
 
+	recoverytypes "github.com/KiraCore/sekai/x/recovery/types"
 	tokens "github.com/KiraCore/sekai/x/tokens"
 	tokenstypes "github.com/KiraCore/sekai/x/tokens/types"
 	sdk "github.com/cosmos/cosmos-sdk/types"
@@ -150,9 +153,13 @@ func main() {
 	var js []interface{}
 
 	var props []wbProp // proposals applied after the configuration, for the next run only
+	var streamCtx *sdk.Context      // when set, run() continues in this context (the configuration is already applied)
+	var preOps []interface{}        // operations executed in the stream before the next transaction (for the replay file)
 	run := func(c *c09lib.Cfg, t c09lib.TxSpec, tag string) {
 		ctx, _ := base.CacheContext()
-		if err := e.Apply(ctx, c); err != nil {
+		if streamCtx != nil {
+			ctx = *streamCtx
+		} else if err := e.Apply(ctx, c); err != nil {
 			dist.Inc("config-refused")
 			return
 		}
@@ -242,7 +249,7 @@ func main() {
 			types = append(types, m.Type())
 		}
 		js = append(js, map[string]interface{}{"level": "ante handler + message handlers", "tag": tag, "config": c.JSON(), "tx": t.JSON(), "class": class,
-			"class_meaning": "0 delivered | 1 rejected by ante | 2 message failed | 3 panic in ante | 4 panic in a message after admission", "error": errText, "balance_deltas": deltas, "msg_types": types, "governance_proposals_applied_first": propJS})
+			"class_meaning": "0 delivered | 1 rejected by ante | 2 message failed | 3 panic in ante | 4 panic in a message after admission", "error": errText, "balance_deltas": deltas, "msg_types": types, "governance_proposals_applied_first": propJS, "operations_executed_before_in_the_same_state": preOps})
 		weak := uint64(c.NVals) < c.MinVals
 		dist.Inc(fmt.Sprintf("class%d", class))
 		dist.Inc(fmt.Sprintf("weak=%v:class%d", weak, class))
@@ -397,6 +404,62 @@ func main() {
 		run(fc.Cfg, c09lib.TxSpec{Fee: []sdk.Coin{fc.Fee}, Msgs: []c09lib.M{{Kind: "send", From: "a2", To: "a3", Amt: nat}}, Seqs: []uint64{0}, SigOK: true}, fc.Tag+":fee")
 		if fc.Token == "ukex" {
 			run(fc.Cfg, c09lib.TxSpec{Fee: fee(170), Msgs: []c09lib.M{{Kind: "eth", From: "e0", To: "a3", EthAmt: 5}}, Seqs: []uint64{0}, SigOK: true}, fc.Tag+":eth")
+		}
+	}
+	// ROTATION STREAM (LESSONS item 2): validator count at minimum-1 / minimum / minimum+1; the weak-network filter is probed
+	// before and after each address rotation of a validator (x/recovery MsgRotateValidatorByHalfRRTokenHolder and
+	// MsgRotateRecoveryAddress, executed through the real message handlers).  The count the checker judges by is the ghost
+	// count: rotations replace a validator, they never add one.
+	for _, kind := range []string{"rr-holder", "secret"} {
+		for minv := 2; minv <= 3; minv++ {
+			for d := -1; d <= 1; d++ {
+				c := baseCfg()
+				c.MinVals, c.NVals = uint64(minv), minv+d
+				c.PoorMsgs = []string{"register_identity_records"}
+				sctx, _ := base.CacheContext()
+				if err := e.Apply(sctx, c); err != nil {
+					panic(err)
+				}
+				streamCtx, preOps = &sctx, nil
+				seq := func(n string) uint64 { return e.App.AccountKeeper.GetAccount(sctx, e.AddrOf(n)).GetSequence() }
+				probe := func(tag string) {
+					run(c, c09lib.TxSpec{Fee: fee(150), Msgs: []c09lib.M{g.msg(c, "upsert_token_info", "a1", "")}, Seqs: []uint64{seq("a1")}, SigOK: true}, tag)
+					run(c, c09lib.TxSpec{Fee: fee(150), Msgs: []c09lib.M{{Kind: "send", From: "a2", To: "a0", Amt: sdk.NewCoins(sdk.NewInt64Coin("ubtc", 3), sdk.NewInt64Coin("ukex", 5000))}}, Seqs: []uint64{seq("a2")}, SigOK: true}, tag)
+				}
+				probe("rotation-stream:before")
+				vals := e.App.CustomStakingKeeper.GetValidatorSet(sctx)
+				for ri := 0; ri < 2 && ri < len(vals); ri++ {
+					vaddr := sdk.AccAddress(vals[ri].ValKey)
+					_, target := e.Stranger(500000 + len(lines))
+					if e.App.AccountKeeper.GetAccount(sctx, vaddr) == nil {
+						e.App.AccountKeeper.SetAccount(sctx, e.App.AccountKeeper.NewAccountWithAddress(sctx, vaddr))
+					}
+					var msg sdk.Msg
+					if kind == "rr-holder" {
+						denom := fmt.Sprintf("rr/val%d", ri)
+						e.App.RecoveryKeeper.SetRecoveryToken(sctx, recoverytypes.RecoveryToken{Address: vaddr.String(), Token: denom, RrSupply: sdk.NewInt(100)})
+						e.Fund(sctx, e.AddrOf("a3"), sdk.NewCoins(sdk.NewInt64Coin(denom, 100)))
+						msg = recoverytypes.NewMsgRotateValidatorByHalfRRTokenHolder(e.AddrOf("a3").String(), vaddr.String(), target.String())
+					} else {
+						proof := []byte(fmt.Sprintf("proof-%d-%d", minv, ri))
+						ch := sha256.Sum256(proof)
+						e.App.RecoveryKeeper.SetRecoveryRecord(sctx, recoverytypes.RecoveryRecord{Address: vaddr.String(), Challenge: hex.EncodeToString(ch[:]), Nonce: "n"})
+						e.Fund(sctx, e.AddrOf("a3"), sdk.NewCoins(sdk.NewInt64Coin("ukex", 2000000000)))
+						msg = &recoverytypes.MsgRotateRecoveryAddress{FeePayer: e.AddrOf("a3").String(), Address: vaddr.String(), Recovery: target.String(), Proof: hex.EncodeToString(proof)}
+					}
+					var herr error
+					pp := hx.Try(func() { _, herr = e.App.MsgServiceRouter().Handler(msg)(sctx, msg) })
+					es := pp
+					if herr != nil {
+						es = herr.Error()
+					}
+					preOps = append(preOps, map[string]interface{}{"op": "rotate validator address (" + kind + ")", "validator_account": vaddr.String(), "new_account": target.String(), "error": es,
+						"validator_records_in_store_afterwards": len(e.App.CustomStakingKeeper.GetValidatorSet(sctx))})
+					dist.Inc("rotation:" + kind + ":ok=" + fmt.Sprint(es == ""))
+					probe("rotation-stream:after")
+				}
+				streamCtx, preOps = nil, nil
+			}
 		}
 	}
 	// validator count at minimum-1 / minimum / minimum+1, for minimum 1..4: a disallowed message must pass exactly when count >= minimum
